@@ -4,6 +4,13 @@ import random
 
 import lib
 
+MANIFEST = {
+ "category": "proof",
+ "text": "Coq theorems C18_quote_roundtrip and C18_format_args_roundtrip: for every valid-UTF-8 string (no length bound) the model of the POSIX sh double-quote/simple-command fragment evaluates the model of appendShellSafeQuote/formatArgs back to exactly the original strings and never reaches an expansion. The model is tied to /repo on every run: the escape set and separator are regenerated from the Go AST (so the proofs are re-checked against the code's case labels), quote/format_args are compared with the Go functions on all 1-2 byte strings, all short strings over the shell-significant alphabet and seeded random strings (extracted OCaml + a kernel vm_compute sample), the sh model is compared with /bin/sh, and the property is read directly on the implementation with /bin/sh as the search for a failing input.",
+ "note": "Trusted: Coq kernel; extraction (ExtrOcamlBasic) cross-checked in-kernel on a sample; extractconsts; dash as reference sh; K/Sh.v covers only the fragment the templates put values into. Guard: valid UTF-8 (invalid bytes are the recorded known finding C18-invalid-utf8-octal), env names are shell names. Scheduler directive lines of the templates are not modelled.",
+ "technique": "Coq proof (induction over the string with a UTF-8 skip invariant, exhaustive 256-way byte case analysis) + differential correspondence + /bin/sh oracle",
+}
+
 
 def same(case, impl, model):
     if case.startswith("d "):
